@@ -317,3 +317,39 @@ pub proof fn lemma_next_entry(r: Map<String, HashSet<String>>, ents: PtrEnts, s0
 pub fn vx_remove_str<V>(m: &mut HashMap<String, V>, k: &str)
     ensures final(m)@ == old(m)@.remove(key_string(k@)),
 { unimplemented!() }
+
+// ---- get_known_answers ----
+// DnsCache read access (one-line getters over its maps; get_addr lower-cases the host name)
+impl DnsCache {
+    #[verifier::external_body]
+    pub fn get_ptr(&self, ty_domain: &str) -> (r: Option<&Vec<DnsRecordIntf>>)
+        ensures r is Some <==> m_has(self.ptr@, ty_domain@), r is Some ==> *r->Some_0 == self.ptr@[key_string(ty_domain@)],
+    { unimplemented!() }
+    #[verifier::external_body]
+    pub fn get_srv(&self, fullname: &str) -> (r: Option<&Vec<DnsRecordIntf>>)
+        ensures r is Some <==> m_has(self.srv@, fullname@), r is Some ==> *r->Some_0 == self.srv@[key_string(fullname@)],
+    { unimplemented!() }
+    #[verifier::external_body]
+    pub fn get_txt(&self, fullname: &str) -> (r: Option<&Vec<DnsRecordIntf>>)
+        ensures r is Some <==> m_has(self.txt@, fullname@), r is Some ==> *r->Some_0 == self.txt@[key_string(fullname@)],
+    { unimplemented!() }
+    #[verifier::external_body]
+    pub fn get_addr(&self, hostname: &str) -> (r: Option<&Vec<DnsRecordIntf>>)
+        ensures r is Some <==> m_has(self.addr@, lower(hostname@)), r is Some ==> *r->Some_0 == self.addr@[key_string(lower(hostname@))],
+    { unimplemented!() }
+}
+// `vec.iter().filter(|r| P(r)).collect::<Vec<&T>>()`: references to the elements satisfying P, in order; `p` is the ghost reading
+// of the closure's contract
+#[verifier::external_body]
+pub fn vx_filter_refs<'a, T, F: Fn(&T) -> bool>(v: &'a Vec<T>, f: F, p: Ghost<spec_fn(T) -> bool>) -> (r: Vec<&'a T>)
+    requires forall|i: int| 0 <= i < v@.len() ==> f.requires((&#[trigger] v@[i],)), forall|x: &T, b: bool| #[trigger] f.ensures((x,), b) ==> b == p@(*x),
+    ensures r@.len() == v@.filter(p@).len(), forall|i: int| 0 <= i < r@.len() ==> *(#[trigger] r@[i]) == v@.filter(p@)[i],
+{ unimplemented!() }
+// the statement (C10): a shared record (no cache-flush bit) with more than half of its lifetime left
+pub open spec fn known_answer_ok(now: u64) -> spec_fn(DnsRecordIntf) -> bool {
+    |r: DnsRecordIntf| !r.record.rec().entry.cache_flush && !(now as int > exp_at(r.record.rec().created, r.record.rec().ttl, 50))
+}
+pub open spec fn held_for(c: DnsCache, name: Seq<char>, qtype: RRType) -> Seq<DnsRecordIntf> {
+    if qtype == RRType::PTR { list_in(c.ptr@, name) } else if qtype == RRType::SRV { list_in(c.srv@, name) } else if qtype == RRType::TXT { list_in(c.txt@, name) }
+    else if qtype == RRType::A || qtype == RRType::AAAA { list_in(c.addr@, lower(name)) } else { Seq::empty() }
+}
